@@ -131,7 +131,7 @@ func report(o *Options, p *Program, v *Verifier, keys []string, obls []*Obligati
 	}
 
 	// violations
-	os.MkdirAll(filepath.Join(o.verif, "replays"), 0o755)
+	os.MkdirAll(filepath.Join(o.out, "replays"), 0o755)
 	nviol := 0
 	var knownLines []string
 	var violLines []string
@@ -144,7 +144,7 @@ func report(o *Options, p *Program, v *Verifier, keys []string, obls []*Obligati
 			continue
 		}
 		nviol++
-		file := filepath.Join(o.verif, "replays", fmt.Sprintf("%s-%s.txt", o.prop, shortName(ob.Name)))
+		file := filepath.Join(o.out, "replays", fmt.Sprintf("%s-%s.txt", o.prop, shortName(ob.Name)))
 		var b strings.Builder
 		fmt.Fprintf(&b, "property: %s\nfailed obligation: %s\nkind: %s\nfunction: %s\nposition: %s\nsource: %s\nsolver: %s -> %s\n",
 			o.prop, ob.Name, ob.Kind, ob.Func, ob.Pos, ob.Text, ob.Result.Backend, ob.Result.Status)
@@ -161,7 +161,7 @@ func report(o *Options, p *Program, v *Verifier, keys []string, obls []*Obligati
 	}
 	for i, pr := range problems {
 		nviol++
-		file := filepath.Join(o.verif, "replays", fmt.Sprintf("%s-problem%d.txt", o.prop, i+1))
+		file := filepath.Join(o.out, "replays", fmt.Sprintf("%s-problem%d.txt", o.prop, i+1))
 		os.WriteFile(file, []byte("property: "+o.prop+"\nfailed obligation: framework-integrity\n"+pr+"\n"), 0o644)
 		violLines = append(violLines, fmt.Sprintf("VIOLATION property=%s replay=%s obligation=framework-integrity no-failing-input-found", o.prop, file))
 	}
@@ -226,7 +226,7 @@ func report(o *Options, p *Program, v *Verifier, keys []string, obls []*Obligati
 		"property_id": o.prop, "tier": o.tier, "seed": o.seed, "level": "proof", "coverage": cov,
 		"assumptions": assumptions, "wall_s": time.Since(start).Seconds(), "violations": nviol,
 	}
-	writeJSON(filepath.Join(o.verif, "evidence", o.prop+".json"), ev)
+	writeJSON(filepath.Join(o.out, "evidence", o.prop+".json"), ev)
 
 	fmt.Printf("govc %s tier=%s: %d functions under contract, %d obligations, %d discharged, %d failed, %d not claimed, %.1fs solver, %.1fs wall\n",
 		o.prop, o.tier, len(fnames), total, discharged, len(failed), len(notClaimed), float64(solverMs)/1000, time.Since(start).Seconds())
